@@ -783,6 +783,13 @@ func (f *frame) applyContract(at ssa.Instruction, ct *Contract, args []T, st *St
 			continue
 		}
 		tags := r.Tags
+		if len(tags) > 0 && strings.HasPrefix(tags[0], "A-") {
+			// a precondition that rests on a named assumption (e.g. A-RAND: a sampled value is non-zero): callers do
+			// not prove it; it is assumed at the call site and listed
+			e.assumed[tags[0]+": precondition of "+ct.Rel+" assumed at call sites: "+r.Text] = true
+			e.assume(implies(st.cond, t))
+			continue
+		}
 		if tags == nil {
 			tags = f.root.tags
 		}
@@ -1014,7 +1021,29 @@ func (f *frame) havocPattern(st *State, pat string, ct *Contract, env *specEnv) 
 		if at != "" {
 			// only the field of the object held by parameter `at`
 			v, ok := env.vars[at]
+			if !ok {
+				// an expression over the parameters, evaluated in the pre-state
+				if ex, err := parser.ParseExpr(at); err == nil {
+					if t, err := env.eval(ex); err == nil && t.Sort == "Int" {
+						v, ok = t, true
+					}
+				}
+			}
 			hn := "H_" + key + "_" + fld
+			if _, known := e.heapSort[hn]; !known {
+				// the field heap has not been touched yet: declare it through its type
+				if us, isS := obj.Type().Underlying().(*types.Struct); isS {
+					for k := 0; k < us.NumFields(); k++ {
+						if us.Field(k).Name() == fld {
+							if _, isSub := us.Field(k).Type().Underlying().(*types.Struct); !isSub {
+								f.heapOfField(obj.Type(), k)
+								hh, hs, _, _ := f.heapOfField(obj.Type(), k)
+								e.H(st, hh, hs)
+							}
+						}
+					}
+				}
+			}
 			if srt, known := e.heapSort[hn]; ok && known {
 				fr := e.fresh("fld", strings.TrimSuffix(strings.TrimPrefix(srt, "(Array Int "), ")"))
 				e.setHeap(st, hn, srt, "(store "+e.H(st, hn, srt)+" "+v.S+" "+fr+")")
